@@ -173,6 +173,8 @@ func (c *RepoCache) lock(events chan BuildEvent) error {
 		return err
 	}
 
+	verifYield("lock:after-available")
+
 	f, err := c.repo.LocalStorage().Create(lockfile)
 	if err != nil {
 		return err
@@ -307,6 +309,8 @@ func repoIsAvailable(repo repository.RepoStorage, events chan BuildEvent) error 
 		// The lock file is just laying there after a crash, clean it
 
 		events <- BuildEvent{Event: BuildEventRemoveLock}
+
+		verifYield("lock:before-remove-stale")
 
 		err = repo.LocalStorage().Remove(lockfile)
 		if err != nil {
